@@ -423,6 +423,19 @@ class Check:
         if level == "proof" and (not all_ok or self.violations):
             level = "other"
         kf_rows = [{"obligation": o.id, "what": k.get("what")} for o, k in self.known_hits]
+        # transcendental axiom library of the SMT encoding: exported from the encoder and proved in Lean (nssvc.axioms_export)
+        try:
+            from . import axioms_export
+            axl = axioms_export.status(self.tier)
+        except Exception as ex:  # never a verdict
+            axl = {"proved": None, "mode": "export failed: %s" % ex}
+        if axl.get("proved"):
+            self.assumptions.append("transcendental axioms of the SMT encoding (sin, cos, exp, log, sqrt, arccos, arcsin, arctan, roots): NOT assumed -- %d instances exported from nssvc.prover.Z3Conv, "
+                                    "each an instance of one of %d schemas proved from Mathlib by Lean (%s); what stays assumed is that numpy's functions are these real functions" % (
+                                        axl.get("n_instances", 0), axl.get("n_generic_proved", 0), axl.get("mode")))
+            self.trusted.append("Lean 4 kernel + Mathlib (axiom library of the SMT encoding; depends on propext, Classical.choice, Quot.sound only)")
+        else:
+            self.assumptions.append("transcendental axioms of the SMT encoding are ASSUMED in this run (%s)" % axl.get("mode"))
         cov = {
             "obligations": n,
             "discharged": nd,
@@ -438,6 +451,7 @@ class Check:
             "known_findings_hit": kf_rows,
             "undecided": [o.id for o in self.undecided] + ["%s/%s (not generated)" % (self.prop, k) for k in getattr(self, "missing_expected", [])],
             "vacuity_guards": self.vacuity,
+            "axiom_library": axl,
             "samples": self.samples[:6] or [{"note": "no discharged obligation"}],
             "explanation": explanation or ("%d of %d obligations discharged on the real source; bounded stand-ins and known findings are listed separately and never counted as discharged" % (nd, n)),
             "notes": self.notes,
